@@ -6,6 +6,7 @@ import (
 	"fmt"
 	"reflect"
 	"strings"
+	"sync"
 	"testing"
 
 	"github.com/gopacket/gopacket"
@@ -454,6 +455,12 @@ func normalizeSCIONHeader(raw []byte) (out []byte, ok bool) {
 
 // checkBytesRoundTrip is oracle (b)+(c) for one byte string. It returns a description of the
 // violation or "". stats receives the names of the layers that decoded.
+var (
+	recycledMu   sync.Mutex
+	recycled     slayers.SCION
+	recycledInit bool
+)
+
 func checkBytesRoundTrip(raw []byte, stats func(string)) (msg string) {
 	defer func() {
 		if r := recover(); r != nil {
@@ -463,6 +470,44 @@ func checkBytesRoundTrip(raw []byte, stats func(string)) (msg string) {
 	data := append([]byte{}, raw...)
 	var s slayers.SCION
 	err := s.DecodeFromBytes(data, gopacket.NilDecodeFeedback)
+	// the router and the dispatcher decode every packet into one long-lived layer with recycled
+	// path objects: same verdict and same re-serialization required
+	var rerr error
+	var rout []byte
+	func() {
+		recycledMu.Lock()
+		defer recycledMu.Unlock()
+		if !recycledInit {
+			recycled.RecyclePaths()
+			recycledInit = true
+		}
+		rerr = recycled.DecodeFromBytes(append([]byte{}, raw...), gopacket.NilDecodeFeedback)
+		if rerr == nil {
+			rb := gopacket.NewSerializeBuffer()
+			if e := recycled.SerializeTo(rb, gopacket.SerializeOptions{}); e == nil {
+				rout = append([]byte{}, rb.Bytes()...)
+			}
+		}
+	}()
+	// (a recycling layer is lenient about unregistered path types, which it keeps as raw bytes; a
+	// fresh layer rejects them - both verdicts are allowed, so only agreement of the output is demanded)
+	if rerr == nil && err == nil {
+		fb := gopacket.NewSerializeBuffer()
+		if e := s.SerializeTo(fb, gopacket.SerializeOptions{}); e == nil && !bytes.Equal(fb.Bytes(), rout) {
+			return fmt.Sprintf("a layer with recycled paths re-serializes to %x, a fresh layer to %x", rout, fb.Bytes())
+		}
+	}
+	if rerr == nil && err != nil && len(raw) >= 12 {
+		if hl := int(raw[5]) * 4; hl > len(raw) {
+			return fmt.Sprintf("recycling layer accepts header length %d with %d bytes of data", hl, len(raw))
+		} else if rout != nil {
+			if a, ok := normalizeSCIONHeader(raw); ok {
+				if b, ok2 := normalizeSCIONHeader(rout); ok2 && !bytes.Equal(a[:hl], b[:min(hl, len(b))]) {
+					return fmt.Sprintf("recycling layer re-serializes an accepted header to %x, input %x", rout, raw[:hl])
+				}
+			}
+		}
+	}
 	if len(raw) >= 12 {
 		hdrLen := int(raw[5]) * 4
 		if hdrLen > len(raw) && err == nil {
